@@ -9,7 +9,7 @@ import subprocess
 import sys
 import time
 
-VERIF = "/verif"
+VERIF = os.environ.get("VERIF_HOME", "/verif")  # VERIF_HOME: developer override (frozen snapshot for batch evaluation)
 # VERIF_REPO / VERIF_WORK are developer overrides (evaluating a seeded change in a scratch
 # worktree while /repo stays free); the registered checks never set them.
 REPO = os.environ.get("VERIF_REPO", "/repo")
